@@ -187,6 +187,25 @@ def mode_program(rng, ctr, viols, nontrivial):
             fieldlevel = (has_app and not op_app) or (has_sig and not op_sig)
             what = ("mode-classification", "Teal.mode = %s, specification says %s%s" % (
                 mode, want, " (mode-specific only through a field)" if fieldlevel else ""))
+    # the human-summary printer must show the same version / mode / counts
+    try:
+        from tealer.printers.human_summary import PrinterHumanSummary
+        with observe.Quiet() as q:
+            PrinterHumanSummary(o.teal).print()
+        txt = q.out.getvalue()
+        ctr["human_summaries_read"] += 1
+        mv = re.search(r"Program version: (\d+)", txt)
+        mm = re.search(r"Mode: (\w+)", txt)
+        mb = re.search(r"Number of basic blocks: (\d+)", txt)
+        mi = re.search(r"Number of instructions: (\d+)", txt)
+        want_v = declared if declared is not None else 1
+        n_ins = len(samples) + 2 + (0 if declared is None else 1)
+        if not (mv and mm and mb and mi) or int(mv.group(1)) != want_v or mm.group(1) != mode or int(mb.group(1)) != len(o.teal.bbs) or int(mi.group(1)) != n_ins:
+            viols.append({"kind": "human-summary", "key": shape, "src": src,
+                          "what": "human-summary shows %r; expected version %s, mode %s, %d blocks, %d instructions" % (
+                              " | ".join(l.strip() for l in txt.strip().splitlines()[:4]), want_v, mode, len(o.teal.bbs), n_ins)})
+    except Exception as e:  # a crashing printer is C17's business
+        ctr["human_summary_raised"] += 1
     if what is None:
         # the classification decides the kind of analysis
         want_type = "ApprovalProgram" if mode == "Stateful" else "LogicSig"
